@@ -10,7 +10,7 @@ CONSTANT Enabled     \* set of property ids whose clause groups are evaluated
 
 TraceLog == TLCEval(ndJsonDeserialize(IOEnv.TRACE_FILE))
 Hdr   == TraceLog[1]
-TraceCfg == Hdr.cfg
+TraceCfg == TLCEval(TraceLog[1].cfg)
 NEv   == Len(TraceLog)
 StartLine == atoi(IOEnv.START_LINE)     \* 1 normally; >1 when resuming after an evaluation error
 Ev(i)  == TraceLog[i]
